@@ -7,7 +7,20 @@ TECHNIQUE = "Lean 4 theorems over an executable Task/TaskGraph model; model tied
 
 def run(chk: common.Check):
     tg.run_suite(chk, "C18")
+    rule = chk.rule
+    # the clauses about RUNS ("in runs of policies that do not plan ahead ...", starvation): every offer made to
+    # the policy during end-to-end runs of the real simulator (the runs are also replayed through the simulator model)
+    from harness.suites import _e2e_common as e2e
+
+    e2e.run_suite(chk, "C18", n_quick=100, n_thorough=1500, streams=("regular", "regular", "batch"))
+    chk.rule = rule + " || end-to-end: " + chk.rule
 
 
 def replay(path) -> int:
+    import json
+
+    if json.loads(open(path).read()).get("suite") == "sim":
+        from harness.suites import _e2e_common as e2e
+
+        return e2e.replay("C18", path)
     return tg.replay("C18", path)
